@@ -224,6 +224,20 @@ def probe_case(case):
             "dg": (sorted(obs["status"].items()), sorted(obs["steps"].items()))}
 
 
+def rerun_case(case):
+    """whole-model history: run, feature.reset(), run again with a new runner - the second run must look like a fresh one"""
+    prog, cfg, faults, cleanups, hooks = case
+    cfgd = runcases.CFGS[cfg] if isinstance(cfg, str) else cfg
+    obs = harness.run_case(prog, cfgd, faults=faults, cleanups=cleanups, hooks=True, second_run=True)
+    ref = refrun.predict(prog, cfgd, faults=faults, cleanups=cleanups, hooks=True)
+    v = refrun.compare(prog, ref, obs, what=("verdict", "status", "steps", "calls", "hooks"))
+    for d, msg in v:
+        d["history"] = "second-run-after-reset"
+    interesting = tuple(sorted(set(obs["status"].values())))
+    return {"v": v, "nt": digest(case) if interesting != ("passed",) else None, "out": ("rerun",) + interesting,
+            "dg": (obs["verdict"], sorted(obs["status"].items()), sorted(obs["steps"].items()), obs["calls"])}
+
+
 def run_case(case):
     ref, obs = runcases.exec_case(case)
     v = refrun.compare(case[0], ref, obs, what=("status", "steps"))
@@ -381,5 +395,8 @@ def run(ctx):
     ctx.sweep(probe_case, (c for c in runcases.step_cases(ctx.tier) if P.size(c[0][0]) <= (3 if ctx.quick else 5)
                            and c[1] in ("default", "stop", "tags_t")), chunk=48,
               name="real runs with .status read from hooks and steps")
+    ctx.sweep(rerun_case, (c for c in itertools.chain(runcases.step_cases(ctx.tier), runcases.fault_cases(ctx.tier))
+                           if P.size(c[0][0]) <= (2 if ctx.quick else 4) and c[1] in ("default", "stop", "tags_t", "wip")),
+              chunk=48, name="whole model run twice (reset in between)")
     ctx.sweep(retry_case, retry_cases(ctx.tier), chunk=16, name="auto-retry / re-run histories")
     ctx.guard(len(ctx.outcomes) > 30, "at least 30 distinct outcome classes")
